@@ -32,6 +32,8 @@ func OraclesFor(prop string) []Oracle {
 		return []Oracle{t, &C13{}}
 	case "C14":
 		return []Oracle{t, &C14{}}
+	case "C15":
+		return []Oracle{t, &C15{}}
 	case "C16":
 		return []Oracle{t, &C16{}}
 	case "C17":
